@@ -65,6 +65,7 @@ type setOp struct {
 	Vs []int   `json:"vs,omitempty"`
 	I  *idxArg `json:"i,omitempty"`
 	J  *idxArg `json:"j,omitempty"`
+	Q  bool    `json:"q,omitempty"` // quiet: the views are not looked at after this operation
 }
 
 type setCase struct {
@@ -111,8 +112,12 @@ func genSetCase(s core.Source) setCase {
 	c.Order = core.Pick(s, []string{"random", "random", "asc", "desc", "minmax"}, "order")
 	nops := 1 + s.Choose(40, "nops")
 	cursor := 0
+	sparse := s.Choose(2, "sparse") == 0 // the views are looked at after some operations only
 	for i := 0; i < nops; i++ {
 		op := setOp{Op: core.Pick(s, setOpKinds, "op")}
+		if sparse {
+			op.Q = s.Choose(3, "quiet") != 0
+		}
 		val := func() int {
 			switch c.Order {
 			case "asc":
@@ -643,7 +648,7 @@ func execSet[E any](c setCase, se setElem[E]) (res core.Result) {
 				}
 			}
 		}
-		if v == nil {
+		if v == nil && !(op.Q && step+1 < len(c.Ops)) {
 			v = check(step, what, allProbes(probes))
 		}
 		if v != nil {
